@@ -782,22 +782,26 @@ sexp sexp_bignum_sqrt (sexp ctx, sexp a, sexp* rem_out) {
 #if SEXP_USE_RATIOS
 
 double sexp_ratio_to_double (sexp ctx, sexp rat) {
-  sexp_gc_var1(quot);
+  sexp_sint_t k;
+  sexp_gc_var2(quot, scale);
   sexp num = sexp_ratio_numerator(rat), den = sexp_ratio_denominator(rat);
   double res = (sexp_bignump(num) ? sexp_bignum_to_double(num)
           : sexp_fixnum_to_double(num))
     / (sexp_bignump(den) ? sexp_bignum_to_double(den)
        : sexp_fixnum_to_double(den));
-  if (!isfinite(res)) {
-    sexp_gc_preserve1(ctx, quot);
-    if (sexp_unbox_fixnum(sexp_compare(ctx, sexp_ratio_numerator(rat),  sexp_ratio_denominator(rat))) < 0) {
-      quot = sexp_quotient(ctx, sexp_ratio_denominator(rat),  sexp_ratio_numerator(rat));
-      res = 1 / sexp_to_double(ctx, quot);
-    } else {
-      quot = sexp_quotient(ctx, sexp_ratio_numerator(rat),  sexp_ratio_denominator(rat));
-      res = sexp_to_double(ctx, quot);
-    }
-    sexp_gc_release1(ctx);
+  if (!isfinite(res) || res == 0) {
+    /* a part is beyond the range of a double (inf/inf, x/inf): divide */
+    /* exactly, with the numerator scaled to give a quotient of 64+ bits */
+    sexp_gc_preserve2(ctx, quot, scale);
+    k = ((sexp_bignump(den) ? sexp_bignum_hi(den) : 1)
+         - (sexp_bignump(num) ? sexp_bignum_hi(num) : 1) + 2);
+    if (k < 0) k = 0;
+    scale = sexp_make_bignum(ctx, k + 1);
+    sexp_bignum_data(scale)[k] = 1;          /* 2^(k * bits per word) */
+    quot = sexp_mul(ctx, num, scale);
+    quot = sexp_quotient(ctx, quot, den);
+    res = ldexp(sexp_to_double(ctx, quot), -(int)(k * sizeof(sexp_uint_t) * 8));
+    sexp_gc_release2(ctx);
   }
   return res;
 }
